@@ -33,7 +33,7 @@ def child_model(rng, mid, depth, calls):
             elif r < 8 or depth <= 0:
                 acts.append({"id": i, "uses": gen.MSG, "key": "k" + i})
             else:
-                to = f"g{rng.range(1, 2)}"
+                to = f"g{rng.range(1, 2)}" if not rng.chance(1, 5) else "nomodel"      # a call that fails inside the child: the error has no code
                 acts.append({"id": i, "uses": SUB, "params": {"to": to, "options": {"cin": rng.below(50), "pid": None}}})
                 calls.append((mid, i, to))
         steps.append({"id": f"{mid}s{si + 1}", "acts": acts})
@@ -60,7 +60,10 @@ def gen_scenario(seed, i, tier):
         i = aid()
         to = rng.weighted([("c1", 4), ("c2", 4), ("g1", 1), ("nomodel", 1)])
         calls.append(("m1", i, to))
-        return {"id": i, "uses": SUB, "params": {"to": to, "options": {"cin": rng.below(50), "tag": f"t{i}", "pid": None}}}
+        a = {"id": i, "uses": SUB, "params": {"to": to, "options": {"cin": rng.below(50), "tag": f"t{i}", "pid": None}}}
+        if rng.chance(1, 3):
+            a["outputs"] = {"cin": None}      # the calling act declares outputs: every kind of return still has to get through
+        return a
 
     def other():
         i = aid()
@@ -99,7 +102,7 @@ def gen_scenario(seed, i, tier):
         if r < 68:
             ops.append(["act", "next", pid, {"open": rng.below(3)}, {"r": rng.below(90)}])
         elif r < 80:
-            ops.append(["act", "error", pid, {"open": rng.below(3)}, {"ecode": rng.pick(["e1", "e2"]), "message": f"boom-{pid}"}])
+            ops.append(["act", "error", pid, {"open": rng.below(3)}, {"ecode": rng.pick(["e1", "e2", ""]), "message": f"boom-{pid}"}])
         elif r < 88:
             ops.append(["act", "abort", pid, {"open": rng.below(3)}, {}])
         else:
